@@ -147,3 +147,38 @@ Example startup_example :
   distinct_keys (map policy_request (expected_policies [c])) = true /\
   List.length (expected_policies [c]) = 6.
 Proof. vm_compute. split; reflexivity. Qed.
+
+(** ---- which IKE_SA handles an ACQUIRE (after fix 960d99a: same connection, not merely same peer) *)
+Lemma find_ike_sa_spec table my peer k :
+  match find_ike_sa table my peer k with
+  | Some n => exists m p, nth_error table (n - k) = Some (m, p) /\ k <= n /\ ip_eqb m my = true /\ ip_eqb p peer = true
+  | None => forall m p, In (m, p) table -> ip_eqb m my && ip_eqb p peer = false
+  end.
+Proof.
+  revert k; induction table as [|[m p] rest IH]; intros k; cbn [find_ike_sa]; [intros ? ? []|].
+  unfold ike_sa_match. destruct (ip_eqb m my && ip_eqb p peer) eqn:E.
+  - apply andb_true_iff in E as [E1 E2]. exists m, p. rewrite Nat.sub_diag. repeat split; auto.
+  - specialize (IH (S k)). destruct (find_ike_sa rest my peer (S k)) as [n|].
+    + destruct IH as (m' & p' & Hn & Hk & H1 & H2). exists m', p'. repeat split; auto; [|lia].
+      replace (n - k) with (S (n - S k)) by lia. exact Hn.
+    + intros m' p' [H|H]; [inversion H; subst; exact E|now apply IH].
+Qed.
+
+Theorem acquire_ike_sa table my peer :
+  match pick_ike_sa table my peer with
+  | PickExisting n => exists m p, nth_error table n = Some (m, p) /\ ip_eqb m my = true /\ ip_eqb p peer = true
+  | PickNewInitiator m p => m = my /\ p = peer /\
+                            forall m' p', In (m', p') table -> ip_eqb m' my && ip_eqb p' peer = false
+  end.
+Proof.
+  unfold pick_ike_sa. pose proof (find_ike_sa_spec table my peer 0) as H.
+  destruct (find_ike_sa table my peer 0) as [n|].
+  - destruct H as (m & p & Hn & _ & H1 & H2). rewrite Nat.sub_0_r in Hn. now exists m, p.
+  - auto.
+Qed.
+
+(** the multi-homed case of finding F18: an IKE_SA with the same peer but another local address is NOT re-used *)
+Example multihomed_not_reused :
+  let a1 := mkip 4 [10; 0; 0; 1]%N in let a2 := mkip 4 [10; 0; 0; 2]%N in let peer := mkip 4 [10; 0; 0; 9]%N in
+  pick_ike_sa [(a1, peer)] a2 peer = PickNewInitiator a2 peer /\ pick_ike_sa [(a1, peer)] a1 peer = PickExisting 0.
+Proof. vm_compute. split; reflexivity. Qed.
